@@ -5,7 +5,7 @@ import Gallia.Gen.C15Exit
 
   Property theorems only; helper lemmas are in `Proofs/Lemmas/Lifecycle.lean`.
   All theorems quantify over every configuration `c : Cfg` (command kind x lock x artifacts x database x hooks) and
-  every script `s : Script` (hook scripts ok / failing; at each of setup, main, teardown-before-super,
+  every script `s : Script` (hook scripts ok / failing; database opens / cannot be opened; at each of setup, main, teardown-before-super,
   teardown-after-super: return, `sys.exit(n)` for every n, `sys.exit(non-int)`, connection / UDS / other error,
   KeyboardInterrupt, cancellation of the main task) - no bounds.
 -/
@@ -41,19 +41,21 @@ theorem catched_agrees :
   decide
 
 /-- the repaired behaviours are still repaired in the source: `Scanner.teardown` does not disconnect the database,
-    `run_hook` reads no name that is unbound when the script fails -/
+    `run_hook` reads no name that is unbound when the script fails, `DBHandler.connect` cleans up after a failed open
+    (that `_db_insert_run_meta()` sits inside the `try:` is part of `steps_agree`) -/
 theorem quirks_agree :
-    (Gen.C15Exit.scannerTeardownDisconnectsDb, Gen.C15Exit.hookUnboundNames.isEmpty) =
-      (({} : Quirks).scannerDisconnect, !({} : Quirks).hookUnbound) := by decide
+    (Gen.C15Exit.scannerTeardownDisconnectsDb, Gen.C15Exit.hookUnboundNames.isEmpty,
+        Gen.C15Exit.dbConnectClosesOnFailure) =
+      (({} : Quirks).scannerDisconnect, !({} : Quirks).hookUnbound, !({} : Quirks).dbOpenUnguarded) := by decide
 
 /-! ## the headline theorems -/
 
 /-- `entry_point()` always returns (nothing escapes), and the code follows the documented mapping:
     0 / n / 70 for a non-int `sys.exit` / 74 for an error the command declares as expected, else 70 / 130 for
     KeyboardInterrupt and for cancellation — decided by the exception that Python's try/finally rules let out of
-    `setup(); try: main() finally: teardown()` -/
+    `setup(); try: main() finally: teardown()` (a database that cannot be opened counts as an unexpected error) -/
 theorem exit_mapping (c : Cfg) (s : Script) :
-    (entryPoint c s).exit = .ret (match raised s with
+    (entryPoint c s).exit = .ret (match ended c s with
       | none => 0
       | some (.sysExit n) => n
       | some .sysExitOther => 70
@@ -62,7 +64,7 @@ theorem exit_mapping (c : Cfg) (s : Script) :
       | some .cancelled => 130) := by
   rw [(entryPoint_fields c s).1]
   simp only [code]
-  rcases raised s with _ | (n | _ | e | _ | _) <;> simp [exitOf]
+  rcases ended c s with _ | (n | _ | e | _ | _) <;> simp [exitOf]
 
 /-- META.json exists exactly when an artifacts directory is configured and carries the returned exit code -/
 theorem meta_agrees (c : Cfg) (s : Script) :
@@ -73,15 +75,16 @@ theorem meta_agrees (c : Cfg) (s : Script) :
   · intro h; exact ⟨_, by simpa [h] using hm, by simpa using hx⟩
   · intro h; simpa [h] using hm
 
-/-- with a database the run_meta row is completed (end time set) with the returned exit code, whatever the command
+/-- with a database (that can be opened) the run_meta row is completed (end time set) with the returned exit code, whatever the command
     kind, and the connection is closed in every case -/
 theorem db_agrees (c : Cfg) (s : Script) :
-    (c.db = true → ∃ a b x, (entryPoint c s).dbRow = .done a b x ∧ (entryPoint c s).exit = .ret x) ∧
+    (c.db = true → s.dbFails = false →
+        ∃ a b x, (entryPoint c s).dbRow = .done a b x ∧ (entryPoint c s).exit = .ret x) ∧
     (c.db = false → (entryPoint c s).dbRow = .absent) ∧
     (entryPoint c s).dbClosed = true := by
   obtain ⟨hx, -, -, hc, -, -, -, hd, -⟩ := entryPoint_fields c s
   refine ⟨?_, ?_, hc⟩
-  · intro h; exact ⟨_, _, _, by simpa [h] using hd, by simpa using hx⟩
+  · intro h h'; exact ⟨_, _, _, by simpa [h, h'] using hd, by simpa using hx⟩
   · intro h; simpa [h] using hd
 
 /-- the zstd log handler is removed and closed in every run -/
@@ -95,10 +98,12 @@ theorem lock_held_throughout (c : Cfg) (s : Script) :
     ∀ o ∈ (entryPoint c s).trace, o.lockHeld = c.lock := by
   rw [entryPoint_trace]
   intro o ho
-  simp only [List.mem_append, List.mem_map] at ho
-  rcases ho with (ho | ⟨a, -, rfl⟩) | ho
+  simp only [List.mem_append] at ho
+  rcases ho with (ho | ho) | ho
   · cases hh : c.hooks <;> simp [hh] at ho; subst ho; rfl
-  · rfl
+  · split at ho
+    · simp at ho
+    · simp only [List.mem_map] at ho; obtain ⟨a, -, rfl⟩ := ho; rfl
   · cases hh : c.hooks <;> simp [hh] at ho; subst ho; rfl
 
 /-- META.json is written after teardown and before the post-hook: no action of the run sees it but the post-hook -/
@@ -106,10 +111,14 @@ theorem meta_written_after_teardown (c : Cfg) (s : Script) :
     ∀ o ∈ (entryPoint c s).trace, o.metaExists = (c.art && o.act == .post) := by
   rw [entryPoint_trace]
   intro o ho
-  simp only [List.mem_append, List.mem_map] at ho
-  rcases ho with (ho | ⟨a, ha, rfl⟩) | ho
+  simp only [List.mem_append] at ho
+  rcases ho with (ho | ho) | ho
   · cases hh : c.hooks <;> simp [hh] at ho; subst ho; simp
-  · have : a ≠ .post := by
+  · split at ho
+    · simp at ho
+    simp only [List.mem_map] at ho
+    obtain ⟨a, ha, rfl⟩ := ho
+    have : a ≠ .post := by
       intro h; subst h
       cases hk : c.kind <;> cases h1 : s.setup <;> cases h2 : s.tdPre <;>
         simp [bodyActs, Kind.isScanner, Kind.closes, List.replicate, hk, h1, h2] at ha
@@ -127,11 +136,11 @@ theorem times_ordered (c : Cfg) (s : Script) :
   have h1 := start_lt_stop c s
   refine ⟨?_, ?_, ?_⟩
   · intro m h; rw [hm] at h; cases ha : c.art <;> simp [ha] at h; subst h; simp; omega
-  · intro a b x h; rw [hd] at h; cases hb : c.db <;> simp [hb] at h; omega
+  · intro a b x h; rw [hd] at h; cases hb : c.db <;> cases hf : s.dbFails <;> simp [hb, hf] at h; omega
   · intro m a b x h h'
     rw [hm] at h; rw [hd] at h'
     cases ha : c.art <;> simp [ha] at h
-    cases hb : c.db <;> simp [hb] at h'
+    cases hb : c.db <;> cases hf : s.dbFails <;> simp [hb, hf] at h'
     subst h; simp; omega
 
 /-- with hooks enabled both hooks run, and the post-hook is told the returned exit code, in GALLIA_EXIT_CODE and
@@ -141,7 +150,7 @@ theorem post_hook_env (c : Cfg) (s : Script) :
         ∃ e, (entryPoint c s).postEnv = some e ∧ (entryPoint c s).exit = .ret e.exitCode ∧ e.metaExit = e.exitCode ∧
           ∀ m, (entryPoint c s).metaFile = some m → e.metaStop = m.stop) ∧
     (c.hooks = false → (entryPoint c s).preRan = false ∧ (entryPoint c s).postEnv = none) := by
-  obtain ⟨hx, -, -, -, hp, -, hm, -, he, -⟩ := entryPoint_fields c s
+  obtain ⟨hx, -, -, -, hp, -, hm, -, he⟩ := entryPoint_fields c s
   constructor
   · intro h
     refine ⟨by simpa [h] using hp, _, by simpa [h] using he, by simpa using hx, rfl, ?_⟩
@@ -155,36 +164,37 @@ theorem hook_failure_inert (c : Cfg) (s : Script) :
     entryPoint c s =
       { entryPoint c { s with preFails := false, postFails := false } with reports := failing c s } := by
   rw [entryPoint_eq, entryPoint_eq]
-  have hc : code c { s with preFails := false, postFails := false } = code c s := rfl
-  have hr : ∀ st, runBody {} c.kind { s with preFails := false, postFails := false } st = runBody {} c.kind s st := by
-    intro st; rfl
-  cases hl : c.lock <;> cases hh : c.hooks <;> cases ha : c.art <;> cases hd : c.db <;>
-    cases hp : s.preFails <;> cases hq : s.postFails <;>
-  simp [St.final, endState, finishedState, unlock, postPhase, finish, dbInsert, prePhase, runHook, St.obs, St.step,
-    failing, runBody_tick_eq, runBody_transportOpen, runBody_trace, hc, hr, hl, hh, ha, hd, hp, hq]
+  obtain ⟨pf, df, e1, e2, e3, e4, qf⟩ := s
+  cases hl : c.lock <;> cases hh : c.hooks <;> cases ha : c.art <;> cases hd : c.db <;> cases df <;>
+    cases pf <;> cases qf <;>
+  simp [St.final, endState, finishedState, unlock, postPhase, finish, tryBody, dbInsert, prePhase, runHook, St.obs,
+    St.step, failing, runBody_tick_eq, runBody_transportOpen, runBody_trace, bodyActs, code, ended, raised,
+    hl, hh, ha, hd]
 
 /-- the executable specification (`Spec.violations`, the one the harness evaluates on the real runs) finds nothing
     wrong with any run of the model -/
 theorem spec_holds (c : Cfg) (s : Script) : violations c s (entryPoint c s) = [] := by
-  obtain ⟨hx, hl, hg, hc, hp, hr, hm, hd, he, -⟩ := entryPoint_fields c s
+  obtain ⟨hx, hl, hg, hc, hp, hr, hm, hd, he⟩ := entryPoint_fields c s
   have h1 := start_lt_stop c s
   have ht : ((entryPoint c s).trace.all fun o => o.lockHeld == c.lock) = true := by
     rw [List.all_eq_true]; intro o ho; simpa using lock_held_throughout c s o ho
   unfold violations
   simp only [hx, hl, hg, hc, hp, hr, hm, hd, he, ht]
-  cases c.art <;> cases c.db <;> cases c.hooks <;> simp [chk] <;> omega
+  cases c.art <;> cases c.db <;> cases s.dbFails <;> cases c.hooks <;> simp [chk] <;> omega
 
 /-- the transport of a scanner is closed again unless `setup()` or the command's own teardown code (before
     `super().teardown()`) raises - in those two cases the code leaves it open -/
 theorem transport_closed_iff (c : Cfg) (s : Script) :
-    (entryPoint c s).transportClosed = !(c.kind.isScanner && (s.setup.isSome || s.tdPre.isSome)) :=
-  (entryPoint_fields c s).2.2.2.2.2.2.2.2.2
+    (entryPoint c s).transportClosed =
+      !(!(c.db && s.dbFails) && c.kind.isScanner && (s.setup.isSome || s.tdPre.isSome)) :=
+  entryPoint_transport c s
 
-/-- teardown runs exactly when setup succeeded, whatever main does -/
+/-- teardown runs exactly when the run got as far as a successful setup, whatever main does -/
 theorem teardown_iff_setup_ok (c : Cfg) (s : Script) :
-    (Act.tdPre ∈ (entryPoint c s).trace.map (·.act)) ↔ s.setup = none := by
+    (Act.tdPre ∈ (entryPoint c s).trace.map (·.act)) ↔ (s.setup = none ∧ ¬(c.db = true ∧ s.dbFails = true)) := by
   rw [entryPoint_trace]
-  cases hk : c.kind <;> cases hh : c.hooks <;> cases h1 : s.setup <;> cases h2 : s.tdPre <;>
+  cases hk : c.kind <;> cases hh : c.hooks <;> cases hd : c.db <;> cases hf : s.dbFails <;>
+    cases h1 : s.setup <;> cases h2 : s.tdPre <;>
     simp [bodyActs, Kind.isScanner, Kind.closes, List.replicate, h1, h2]
 
 /-! ## each repair was necessary: the pinned behaviours break the specification -/
@@ -210,6 +220,15 @@ theorem pinned_cancel_defect :
     = ["exit-code", "meta-exit-code", "db-exit-code", "lock-held", "post-hook-skipped"] := by
   decide
 
+/-- `_db_insert_run_meta()` before the `try:` and a `connect()` that leaks: a database that cannot be opened ends the
+    run with nothing recorded, the log handler and the lock left open and the connection (its thread) alive -/
+theorem pinned_db_open_defect :
+    violations { lock := true, art := true, db := true, hooks := true } { dbFails := true }
+      (entryPointQ { dbOpenUnguarded := true } { lock := true, art := true, db := true, hooks := true }
+        { dbFails := true })
+    = ["exit-code", "meta-missing", "db-left-open", "log-left-open", "lock-held", "post-hook-skipped"] := by
+  decide
+
 /-! ## the hypotheses are satisfiable / the statements are not vacuous -/
 
 example : (entryPoint { kind := .uds, lock := true, art := true, db := true, hooks := true }
@@ -218,6 +237,9 @@ example : (entryPoint { kind := .uds, lock := true, art := true, db := true, hoo
 example : ∃ m, (entryPoint { kind := .scanner, art := true, db := true } { setup := some (.err .uds) }).metaFile = some m
     ∧ m.exit = 74 ∧ (entryPoint { kind := .scanner, art := true, db := true } { setup := some (.err .uds) }).dbRow
         = .done 2 6 74 := by decide
+
+example : (entryPoint { kind := .uds, art := true, db := true } { dbFails := true, main := some (.sysExit 3) }).exit
+    = .ret 70 := by decide
 
 example : (entryPoint { kind := .plain } { main := some (.err .conn) }).exit = .ret 70 := by decide
 
